@@ -405,13 +405,13 @@ fn c11_wrath_read_client_impl(facade: bool) {
     assert!(senc_cipher_same(&sc.encrypt, &se0), "C11: reading changed the encrypter");
 }
 #[kani::proof]
-#[kani::unwind(258)]
+#[kani::unwind(42)]
 #[kani::stub(crate::wrath_header::inner_crypto::InnerCrypto::apply, ich::pad_apply_inner)]
 fn c11_wrath_read_client() {
     c11_wrath_read_client_impl(false);
 }
 #[kani::proof]
-#[kani::unwind(258)]
+#[kani::unwind(42)]
 #[kani::stub(crate::wrath_header::inner_crypto::InnerCrypto::apply, ich::pad_apply_inner)]
 fn c11_wrath_read_client_facade() {
     c11_wrath_read_client_impl(true);
@@ -467,13 +467,13 @@ fn c11_wrath_read_server_impl(facade: bool) {
     assert!(cenc_same(&cc.encrypt, &ce0), "C11: reading changed the encrypter");
 }
 #[kani::proof]
-#[kani::unwind(258)]
+#[kani::unwind(42)]
 #[kani::stub(crate::wrath_header::inner_crypto::InnerCrypto::apply, ich::pad_apply_inner)]
 fn c11_wrath_read_server() {
     c11_wrath_read_server_impl(false);
 }
 #[kani::proof]
-#[kani::unwind(258)]
+#[kani::unwind(42)]
 #[kani::stub(crate::wrath_header::inner_crypto::InnerCrypto::apply, ich::pad_apply_inner)]
 fn c11_wrath_read_server_facade() {
     c11_wrath_read_server_impl(true);
@@ -512,13 +512,13 @@ fn c11_wrath_write_client_impl(facade: bool) {
     assert!(wr.pos <= 6 && cenc_same(&cc.encrypt, &ref_e) && cdec_same(&cc.decrypt, &cd0), "C11: wrath write wrapper state differs");
 }
 #[kani::proof]
-#[kani::unwind(258)]
+#[kani::unwind(42)]
 #[kani::stub(crate::wrath_header::inner_crypto::InnerCrypto::apply, ich::pad_apply_inner)]
 fn c11_wrath_write_client() {
     c11_wrath_write_client_impl(false);
 }
 #[kani::proof]
-#[kani::unwind(258)]
+#[kani::unwind(42)]
 #[kani::stub(crate::wrath_header::inner_crypto::InnerCrypto::apply, ich::pad_apply_inner)]
 fn c11_wrath_write_client_facade() {
     c11_wrath_write_client_impl(true);
@@ -557,13 +557,13 @@ fn c11_wrath_write_server_impl(facade: bool) {
     assert!(wr.pos <= n && senc_cipher_same(&sc.encrypt, &ref_e) && sdec_same(&sc.decrypt, &sd0), "C11: wrath write wrapper state differs");
 }
 #[kani::proof]
-#[kani::unwind(258)]
+#[kani::unwind(42)]
 #[kani::stub(crate::wrath_header::inner_crypto::InnerCrypto::apply, ich::pad_apply_inner)]
 fn c11_wrath_write_server() {
     c11_wrath_write_server_impl(false);
 }
 #[kani::proof]
-#[kani::unwind(258)]
+#[kani::unwind(42)]
 #[kani::stub(crate::wrath_header::inner_crypto::InnerCrypto::apply, ich::pad_apply_inner)]
 fn c11_wrath_write_server_facade() {
     c11_wrath_write_server_impl(true);
